@@ -77,6 +77,7 @@ def _tree_cases(rng, root, all_subsets: bool):
     for prune, filt in subsets():
         pf = lambda info: _key(toks, info) in prune  # noqa
         ff = None if filt is None else (lambda info: _key(toks, info) in filt)
+        positional = rng.random() < 0.4
         if rng.random() < 0.35:
             # callbacks given as callable OBJECTS that happen to be falsy (an empty callable container): they
             # are callbacks all the same ("None" alone means: no callback)
@@ -87,7 +88,11 @@ def _tree_cases(rng, root, all_subsets: bool):
             extra.append([A("filter")] + [list(k) for k in sorted(filt, key=str)])
         d2 = f"{desc} prune={sorted(prune, key=str)} filter={None if filt is None else sorted(filt, key=str)}"
         for bu in (False, True):
-            real = _guard(lambda: _items(toks, root.dfs(prune=pf if prune else None, filter=ff, bottom_up=bu)))
+            if positional:
+                # the documented parameter order (prune, filter, bottom_up), arguments given by position
+                real = _guard(lambda: _items(toks, root.dfs(pf if prune else None, ff, bu)))
+            else:
+                real = _guard(lambda: _items(toks, root.dfs(prune=pf if prune else None, filter=ff, bottom_up=bu)))
             yield Case("dfs_bu" if bu else "dfs", dumps([A("dfs")] + env + extra + [[A("bottom_up"), bu]]), real,
                        nontriv, d2, sig=f"dfs|bottom_up={bu}")
             # in-process oracle: position soundness on the real objects
@@ -101,7 +106,7 @@ def _tree_cases(rng, root, all_subsets: bool):
                         break
             except Exception:
                 pass
-        real = _guard(lambda: _items(toks, root.bfs(prune=pf if prune else None, filter=ff)))
+        real = _guard(lambda: _items(toks, root.bfs(pf if prune else None, ff) if positional else root.bfs(prune=pf if prune else None, filter=ff)))
         yield Case("bfs", dumps([A("bfs")] + env + extra), real, nontriv, d2, sig="bfs")
         # gather
         classes = rng.sample(zoo.ALL_CLASSES, rng.randint(1, 3))
@@ -175,7 +180,49 @@ class _FalsyCallable:
         return 0
 
 
+import dataclasses as _dc
+
+
+class _HasBody:
+    """a plain (non-dataclass) mixin that only ANNOTATES a field the node class declares itself"""
+    body: "zoo.Expr"
+    orelse: "zoo.Expr | None"
+
+
+@_dc.dataclass(frozen=True)
+class C05If(zoo.Expr, _HasBody):
+    cond: zoo.Expr | None = None
+    body: zoo.Expr | None = None
+    extra: tuple[zoo.Expr, ...] = ()
+    orelse: zoo.Expr | None = None
+
+
+def mixin_order_cases(rng):
+    """"child fields in declaration order": the order in which the node class declares them, also when an annotation-only
+    mixin names some of them (in another order)"""
+    mk = lambda i: zoo.Leaf(v=i)  # noqa
+    n = C05If(cond=zoo.Un(mk(1)), body=mk(2), extra=(mk(3), zoo.Un(mk(4))), orelse=mk(5))
+    root = zoo.Tup((n, mk(6)))
+    val = lambda x: x.v if isinstance(x, zoo.Leaf) else type(x).__name__  # noqa
+    want_pre = ["C05If", "Un", 1, 2, 3, "Un", 4, 5, 6]
+    want_post = [1, "Un", 2, 3, 4, "Un", 5, "C05If", 6]
+    want_bfs = ["C05If", 6, "Un", 2, 3, "Un", 5, 1, 4]
+    got = {"dfs": [val(i.node) for i in root.dfs()], "dfs(bottom_up)": [val(i.node) for i in root.dfs(bottom_up=True)],
+           "bfs": [val(i.node) for i in root.bfs()],
+           "fields": [(i.field.name, i.findex) for i in n.dfs() if i.parent is n]}
+    want = {"dfs": want_pre, "dfs(bottom_up)": want_post, "bfs": want_bfs,
+            "fields": [("cond", None), ("body", None), ("extra", 0), ("extra", 1), ("orelse", None)]}
+    fail = None
+    for k in want:
+        if got[k] != want[k]:
+            fail = f"{k}: {got[k]}, expected {want[k]} (declaration order cond, body, extra, orelse)"
+            break
+    yield Case("directed:mixin-order", None, None, True, "class C05If(Expr, _HasBody) with an annotation-only mixin naming body / orelse",
+               oracle_fail=fail, sig="dfs|directed|mixin-order")
+
+
 def cases(rng: random.Random, tier: str):
+    yield from mixin_order_cases(rng)
     yield from deep_chain_cases(rng)
     n_trees = 250 if tier == "quick" else 6000
     for k in range(n_trees):
